@@ -62,6 +62,30 @@ for _pid in ("C06", "C07"):
                                                "operation history (Props/C06BitIO.lean); tied to the private classes by the bitio correspondence.")
         REGISTRY[_pid] = _e
 
+# generator families added while strengthening for the round-5 seeds (appended to the groups' own rule texts)
+_RULE_ADDENDA = {
+    "C06": "attribute plans for composites built through the constructors (constants first / last / before every field / anywhere, at every composite of the tree); "
+           "6% of the types are obtained from generated DSDL text under version numbers (read_namespace / read_files, message or service section)",
+    "C07": "hdrcut / innercut cases: prefixes ending at every byte from 2 bytes in front of a delimiter header to 6 bytes behind it, for up to 3 headers of any depth incl. the "
+           "top-level with_delimiter_header one, and enclosing payloads ending at every byte around a nested header; nest types (delimited inside delimited, 2-4 levels); the zero-extension "
+           "exemption is decided by an independent reference reading of the bytes (only array length > capacity, tag out of range, header > remaining window reject)",
+    "C14": "65% of the pairs carry a source: read from generated DSDL text (two minor versions side by side or two checkouts, majors from {0,1,2,3,7,100,255}, message or service "
+           "section, constants first / last / mixed) or built through the constructors under version numbers",
+    "C18": "look-alike pairs differing in exactly one observable while the others coincide (sealed vs delimited with coinciding bit length sets in many shapes, structure vs union, "
+           "equal (min, max, residues) but different sets, one definition attribute); 4% of the cases of every kind cross a process boundary: pickled here (alone, in containers, as "
+           "members), unpickled under another PYTHONHASHSEED and compared member by member with twins built there, and back",
+    "C12": "20% character family: initialisers drawn per Unicode class computed from unicodedata (ASCII incl. controls, Latin-1, BMP, astral, lone surrogates, code points that "
+           "NFC / NFD / NFKC / NFKD / lower / upper / title / casefold turn into ASCII, non-ASCII digits, ASCII + combining mark, empty and two-character strings) in raw and every "
+           "escape spelling, for uint8 and widths around 8; every accepted value is also passed through the public constructors",
+    "C13": "9% name constellations: namespaces named like types, types named like their namespace, Request / Response inside a namespace named like a service, case variants, "
+           "further versions of the same or the other kind, referrers; each file individually valid; read by read_namespace, read_files with all files, read_files with one target",
+}
+for _pid, _txt in _RULE_ADDENDA.items():
+    if _pid in REGISTRY:
+        _e = dict(REGISTRY[_pid])
+        _e["rule"] = _e["rule"] + " | added in round 5: " + _txt
+        REGISTRY[_pid] = _e
+
 # Only properties listed in harness/enabled.txt are claimed (groups still under construction stay out of MANIFEST.json).
 _enabled = {l.strip() for l in (Path(__file__).resolve().parent / "enabled.txt").read_text().split() if l.strip()}
 PENDING = {k: v for k, v in REGISTRY.items() if k not in _enabled}
